@@ -86,9 +86,25 @@ def ensure_coq_makefile():
             raise RuntimeError('coq_makefile failed: ' + out)
 
 
+class BuildLock:
+    """serialises Coq builds in the shared tree (several checks may run at once)"""
+    def __enter__(self):
+        import fcntl
+        os.makedirs(BUILD, exist_ok=True)
+        self.f = open(BUILD + '/.coq.lock', 'w')
+        fcntl.flock(self.f, fcntl.LOCK_EX)
+        return self
+
+    def __exit__(self, *a):
+        import fcntl
+        fcntl.flock(self.f, fcntl.LOCK_UN)
+        self.f.close()
+
+
 def coq_make(targets, timeout):
-    ensure_coq_makefile()
-    rc, out = sh(['make', '-j%d' % NCPU] + targets, cwd=COQ, timeout=timeout)
+    with BuildLock():
+        ensure_coq_makefile()
+        rc, out = sh(['make', '-j%d' % NCPU] + targets, cwd=COQ, timeout=timeout)
     return rc, out
 
 
